@@ -253,8 +253,13 @@ func (n *Node) Send(sender string, ev *workerpb.Event) error {
 // SendBatch hands one sender's batch to the operator the way a source runner of the same process does:
 // through the repository's embedded operator client (the connect handler treats a request the same way).
 func (n *Node) SendBatch(sender string, evs ...*workerpb.Event) error {
+	return n.SendBatchCtx(context.Background(), sender, evs...)
+}
+
+// SendBatchCtx is SendBatch with the request's context (a caller may give up while the request is being served).
+func (n *Node) SendBatchCtx(ctx context.Context, sender string, evs ...*workerpb.Event) error {
 	cl := rpc.NewOperatorEmbeddedClient(rpc.NewOperatorEmbeddedClientParams{Operator: n.Op, SenderID: sender, ID: n.ID})
-	return cl.HandleEventBatch(context.Background(), evs)
+	return cl.HandleEventBatch(ctx, evs)
 }
 
 // ---- reading an operator's DKV checkpoint back
